@@ -139,6 +139,32 @@ func (e *specEnv) resolveGeneric(pk *types.Package, src string) types.Type {
 	if rest == "" || strings.ContainsAny(rest, "[]. (){}") {
 		return nil
 	}
+	wrap := func(t types.Type) types.Type {
+		for i := len(wraps) - 1; i >= 0; i-- {
+			if wraps[i] == "*" {
+				t = types.NewPointer(t)
+			} else {
+				t = types.NewSlice(t)
+			}
+		}
+		return t
+	}
+	// a type parameter of the function under verification (of its enclosing function for a literal)
+	{
+		ofi := e.x.fi
+		for ofi != nil && ofi.Lit != nil && ofi.Outer != nil {
+			ofi = ofi.Outer
+		}
+		if ofi != nil && ofi.Sig != nil {
+			for _, l := range []*types.TypeParamList{ofi.Sig.TypeParams(), ofi.Sig.RecvTypeParams()} {
+				for i := 0; l != nil && i < l.Len(); i++ {
+					if l.At(i).Obj().Name() == rest {
+						return wrap(l.At(i))
+					}
+				}
+			}
+		}
+	}
 	tn, ok := pk.Scope().Lookup(rest).(*types.TypeName)
 	if !ok {
 		return nil
